@@ -81,6 +81,10 @@ fn as_f64_exact(v: &RVal) -> Result<f64, ()> {
 /// a 64-bit integer, the exact one. Anything else (a wrapped, negated or truncated value) is
 /// a mismatch.
 fn big_arith(f: &str, nums: &[RVal]) -> Ev {
+    if nums.iter().any(|v| !v.is_num()) {
+        // (sum meets its elements one by one: a later element may not be a number at all)
+        return nothing();
+    }
     let fl: Vec<f64> = nums.iter().map(|v| v.as_f64().unwrap()).collect();
     let ints: Option<Vec<i128>> = nums.iter().map(|v| if let RVal::Int(i) = v { Some(*i) } else { None }).collect();
     let (r, exact): (f64, Option<i128>) = match f {
